@@ -1402,6 +1402,104 @@ func (w *worker) countBoundaries(ver string) {
 	}
 }
 
+// sizeSweep: valid BATCH bodies with thousands of children and QUERY / EXECUTE bodies with one large value whose total
+// length sweeps 40 KB .. 2.7 MB in steps of about 4 KB (every residue window of a few KB modulo the small multiples of
+// 64 KiB is hit): the partial codec must extract the same children / fields as the reference codec built them from and
+// re-encode to the same bytes, whatever the size of the body.
+func (w *worker) sizeSweep(ver string, step int) {
+	ref := frame.NewRawCodec()
+	id := []byte("0123456789abcdef")
+	const n = 5000
+	for L := 40000; L < 2700000; L += step {
+		for _, op := range []string{"BATCH", "QUERY", "EXECUTE"} {
+			if op != "BATCH" && (L/step)%8 != 0 {
+				continue
+			}
+			var msg message.Message
+			switch op {
+			case "BATCH":
+				per, extra := (L-8)/n-25, (L-8)%n
+				if per < 0 {
+					per, extra = 0, 0
+				}
+				ch := make([]*message.BatchChild, n)
+				for i := range ch {
+					p := per
+					if i < extra {
+						p++
+					}
+					cid := append([]byte{byte(i >> 8), byte(i)}, id[2:]...)
+					ch[i] = &message.BatchChild{Id: cid, Values: []*primitive.Value{primitive.NewValue(filler(p))}}
+				}
+				msg = &message.Batch{Type: primitive.BatchTypeUnlogged, Consistency: primitive.ConsistencyLevelLocalQuorum, Children: ch}
+			case "QUERY":
+				msg = &message.Query{Query: "INSERT INTO ks.t (k) VALUES (?)", Options: &message.QueryOptions{Consistency: primitive.ConsistencyLevelLocalQuorum,
+					PositionalValues: []*primitive.Value{primitive.NewValue(filler(L))}}}
+			case "EXECUTE":
+				msg = &message.Execute{QueryId: id, ResultMetadataId: id, Options: &message.QueryOptions{Consistency: primitive.ConsistencyLevelLocalQuorum,
+					PositionalValues: []*primitive.Value{primitive.NewValue(filler(L))}}}
+			}
+			r := &row{Op: op, Ver: ver, Mal: "size-sweep", Cls: "valid"}
+			h := header(r)
+			ov := w.ov(r)
+			var buf bytes.Buffer
+			if err := ref.EncodeBody(h, &frame.Body{Message: msg}, &buf); err != nil {
+				w.res.machinery(fmt.Sprintf("reference codec cannot encode a %s of %d bytes: %v", op, L, err))
+				return
+			}
+			x := buf.Bytes()
+			ov.Bodies++
+			d := decodeReader(codecs.CustomRawCodec, h, x)
+			ov.Decodes++
+			stage := fmt.Sprintf("body of %d bytes", len(x))
+			if d.panicked != "" {
+				w.res.report("panic", r, "", 0, stage, x[:64], d.panicked, nil)
+				return
+			}
+			if d.err != nil {
+				w.res.report("decode", r, "", 0, stage, x[:64], "valid body rejected: "+d.err.Error(), nil)
+				return
+			}
+			diff := ""
+			switch m := d.msg.(type) {
+			case *codecs.PartialBatch:
+				rb := msg.(*message.Batch)
+				if m.Consistency != rb.Consistency || m.Type != rb.Type || len(m.Queries) != len(rb.Children) {
+					diff = fmt.Sprintf("consistency %v type %v children %d (of %d)", m.Consistency, m.Type, len(m.Queries), len(rb.Children))
+				} else {
+					for i, q := range m.Queries {
+						if b, ok := q.QueryOrId.([]byte); !ok || !bytes.Equal(b, rb.Children[i].Id) {
+							diff = fmt.Sprintf("child %d: %v", i, q.QueryOrId)
+							break
+						}
+					}
+				}
+			case *codecs.PartialQuery:
+				if m.Query != msg.(*message.Query).Query || m.Consistency != primitive.ConsistencyLevelLocalQuorum {
+					diff = fmt.Sprintf("query %q consistency %v", m.Query, m.Consistency)
+				}
+			case *codecs.PartialExecute:
+				if !bytes.Equal(m.QueryId, id) || m.Consistency != primitive.ConsistencyLevelLocalQuorum {
+					diff = fmt.Sprintf("id %x consistency %v", m.QueryId, m.Consistency)
+				}
+			default:
+				diff = fmt.Sprintf("decoded to %T", d.msg)
+			}
+			ov.FieldChecks++
+			if diff != "" {
+				w.res.report("decode", r, "", 0, stage, x[:64], "extracted fields differ from the reference codec: "+diff, nil)
+				return
+			}
+			out, err, p := encodeBody(codecs.CustomRawCodec, h, d.body)
+			ov.Reencodes++
+			if p != "" || err != nil || !bytes.Equal(out, x) {
+				w.res.report("reencode", r, "", 0, "re-encode", x[:64], fmt.Sprintf("re-encoding does not reproduce the body (panic %q, error %v, lengths %d/%d)", p, err, len(out), len(x)), nil)
+				return
+			}
+		}
+	}
+}
+
 func (w *worker) randomInputs(op, ver string, n int, salt int64) {
 	r := &row{Op: op, Ver: ver, Mal: "random-bytes", Cls: "open"}
 	h := header(r)
@@ -1640,6 +1738,11 @@ func main() {
 	// unsigned [short]): instances of the valid rows with N one-byte values, judged by the reference codec
 	for _, ver := range []string{"v3", "v4", "v5", "DSEv1", "DSEv2"} {
 		workers[0].countBoundaries(ver)
+		if step := 4093; ver == "v4" || hutil.Thorough() {
+			workers[0].sizeSweep(ver, step)
+		} else {
+			workers[0].sizeSweep(ver, 4*step+7)
+		}
 	}
 
 	// a few inputs that announce a huge [long string]: run alone, timed
